@@ -251,6 +251,9 @@ fn rand_alg(r: &mut Rng) -> String {
     if r.chance(1, 15) {
         return crate::spell::edge_len_alg(r);
     }
+    if r.chance(1, 6) {
+        return crate::spell::family_alg(r);
+    }
     let n = *r.pick(&[0usize, 1, 2, 3, 4, 6, 10, 22, 23, 24, 30]);
     let mut s = String::new();
     for _ in 0..n {
